@@ -244,7 +244,7 @@ struct MsgParser
       return m;
    }
 
-   const std::string & _s; size_t _i; bool _ok;
+   const std::string _s; size_t _i; bool _ok;
 };
 
 // ---------------------------------------------------------------- commands of the modelled stream
